@@ -152,6 +152,104 @@ theorem next_after_last (all : List Query) (cur : Cursor) (l : List Entry) (it :
   · exact hq
   · simp [hq] at this
 
+/-! ## one run -/
+
+theorem writeFails_nil_iff (m : CRun) : writeFails m = [] ↔ ∀ ret err, m.wret = some (ret, err) → ret = (m.frames : Int) ∧ err = 0 := by
+  unfold writeFails
+  cases h : m.wret with
+  | none => simp
+  | some p => obtain ⟨a, b⟩ := p; simp [ite_nil_iff]
+
+theorem closeFails_nil_iff (m : CRun) : closeFails m = [] ↔ ∀ c, m.close = some c → c = 0 := by
+  unfold closeFails
+  cases h : m.close with
+  | none => simp
+  | some c => simp [ite_nil_iff]
+
+/-- C13 "without disturbing audio": the read-back delivered exactly the items written and touched nothing behind them -/
+theorem readFails_nil_iff (m : CRun) : readFails m = [] ↔
+    ∀ rb, m.read = some rb → rb.ret = (m.frames : Int) ∧ rb.err = 0 ∧ rb.data = m.items ++ List.replicate (m.readN - m.frames) 0xA5A5 := by
+  unfold readFails
+  cases h : m.read with
+  | none => simp
+  | some rb => simp [ite_nil_iff, and_assoc]
+
+/-- THE STATEMENT of C13 on one run, in mathematical form -/
+structure CHolds (r : CRecord) (m : CRun) : Prop where
+  complete : m.complete = true
+  /-- every sf_set_chunk returned 0, or failed for a call after the audio / an id the API need not accept -/
+  sets : ∀ s ∈ m.sets, s.ret0 = true ∨ (s.refused = true ∧ (s.late = true ∨ mayRefuse r.c s.id = true))
+  wrote : ∀ ret err, m.wret = some (ret, err) → ret = (m.frames : Int) ∧ err = 0
+  closed : ∀ c, m.close = some c → c = 0
+  /-- the file re-opens, with the frames written, the audio untouched, every iteration as the statement says -/
+  reopened : ∀ ri, m.reopen = some ri → ri.ok = true ∧ (m.wret.isSome = true → ri.frames = (m.frames : Int)) ∧
+    (∀ rb, m.read = some rb → rb.ret = (m.frames : Int) ∧ rb.err = 0 ∧ rb.data = m.items ++ List.replicate (m.readN - m.frames) 0xA5A5) ∧
+    (∀ q ∈ m.queries, queryFails r (stored m.sets) q = []) ∧ stepFails m.queries {} m.queries = []
+
+/-- MEANING AND COMPLETENESS of the C13 predicate on one run -/
+theorem judgeRun_nil_iff (r : CRecord) (m : CRun) : judgeRun r m = [] ↔ CHolds r m := by
+  unfold judgeRun
+  by_cases hc' : m.complete = false
+  · simp only [hc', Bool.not_false, if_true]
+    constructor
+    · intro h; simp at h
+    · intro h; have := h.complete; simp [hc'] at this
+  have hc : m.complete = true := by simpa using hc'
+  simp only [hc, Bool.not_true, Bool.false_eq_true, if_false, List.append_eq_nil_iff, setFails_nil_iff, writeFails_nil_iff, closeFails_nil_iff]
+  unfold reopenFails
+  cases hre : m.reopen with
+  | none =>
+    constructor
+    · rintro ⟨⟨⟨h1, h2⟩, h3⟩, _⟩
+      exact ⟨hc, h1, h2, h3, by intro ri hri; simp [hre] at hri⟩
+    · intro h; exact ⟨⟨⟨h.sets, h.wrote⟩, h.closed⟩, rfl⟩
+  | some ri =>
+    by_cases hok' : ri.ok = false
+    · simp only [hok', Bool.not_false, if_true]
+      constructor
+      · rintro ⟨_, h⟩; simp at h
+      · intro h; have := (h.reopened ri hre).1; simp [hok'] at this
+    have hok : ri.ok = true := by simpa using hok'
+    unfold reopenedFails
+    simp only [hok, Bool.not_true, Bool.false_eq_true, if_false, List.append_eq_nil_iff, readFails_nil_iff, flatMap_nil_iff, ite_nil_iff']
+    constructor
+    · rintro ⟨⟨⟨h1, h2⟩, h3⟩, ⟨⟨⟨h4, h5⟩, h6⟩, h7⟩⟩
+      refine ⟨hc, h1, h2, h3, ?_⟩
+      intro ri' hri'
+      rw [hre] at hri'; cases hri'
+      refine ⟨hok, ?_, h5, h6, h7⟩
+      intro hw
+      simp only [hw, Bool.true_and, bne_iff_ne, ne_eq, Decidable.not_not] at h4
+      exact h4
+    · intro h
+      obtain ⟨_, a, b, c, d⟩ := h.reopened ri hre
+      refine ⟨⟨⟨h.sets, h.wrote⟩, h.closed⟩, ⟨⟨⟨?_, b⟩, c⟩, d⟩⟩
+      intro hbad
+      simp only [Bool.and_eq_true, bne_iff_ne, ne_eq] at hbad
+      exact hbad.2 (a hbad.1)
+
+/-- **accepted_iff** for C13: the record is accepted exactly when the statement holds on the main run and (where it was made) the
+    twin run without chunks reads the same audio and strings -/
+theorem accepted_iff (r : CRecord) : accepted r = true ↔
+    CHolds r r.main ∧ ∀ t, r.twin = some t → (r.main.reopen.map (·.ok)) = some true → twinFails r.main t = [] := by
+  unfold accepted judge
+  simp only [List.isEmpty_iff, List.append_eq_nil_iff, judgeRun_nil_iff]
+  constructor
+  · rintro ⟨h1, h2⟩
+    refine ⟨h1, ?_⟩
+    intro t ht hok
+    simp only [ht, h1.complete, Bool.true_and, hok, beq_self_eq_true, if_true] at h2
+    exact h2
+  · rintro ⟨h1, h2⟩
+    refine ⟨h1, ?_⟩
+    cases ht : r.twin with
+    | none => rfl
+    | some t =>
+      dsimp only
+      by_cases hok : (r.main.reopen.map (·.ok)) = some true
+      · simp [h1.complete, hok, h2 t ht hok]
+      · simp [hok]
+
 /-! ## ties to the concrete model Sf.Chunk -/
 
 /-- what the model of `*_get_chunk_data` (`Sf.Chunk.getData`: `psf_fread (data, MIN (datalen, len), 1)`) leaves in a caller's
